@@ -2,7 +2,7 @@
 """import confirmed sub-agent seeds: bin/import_seeds.py <confirm.log> ; copies from /tmp/wt_<P>/seed into /verif/seeded/<P>-<k>/"""
 import json, os, re, shutil, sys
 for line in open(sys.argv[1]):
-    m = re.match(r'RESULT (/tmp/w[t2345678]_(\w+)) (\d+) demo_clean=(\d+) demo_patched=(\d+) tests: (.*)', line.strip())
+    m = re.match(r'RESULT (/tmp/w[t23456789]_(\w+)) (\d+) demo_clean=(\d+) demo_patched=(\d+) tests: (.*)', line.strip())
     if not m: continue
     wt, tag, k, dc, dp, tests = m.groups()
     src_k = k
@@ -13,6 +13,7 @@ for line in open(sys.argv[1]):
     if '/w6_' in wt: k = str(int(k) + 10)  # sixth-round seeds are numbered 11 and 12
     if '/w7_' in wt: k = str(int(k) + 12)  # seventh-round seeds are numbered 13 and 14
     if '/w8_' in wt: k = str(int(k) + 14)  # eighth-round seeds are numbered 15 and 16
+    if '/w9_' in wt: k = str(int(k) + 16)  # ninth-round seeds are numbered 17 and 18
     prop = tag.split('_')[0]
     ok = dc == '0' and dp != '0' and '46 passed' in tests
     dst = '/verif/seeded/%s-%s' % (tag, k)
